@@ -145,7 +145,7 @@ func (e *vfC19Env) write(path, docID string, body *vfC19Val, st *vfC19Style, par
 		extras = append(extras, "_exp", exp)
 	}
 	ser := func(v *vfC19Val) string {
-		s, esc := vfC19Ser(v, st)
+		s, esc := vfC19SerDoc(v, st)
 		escaped = esc
 		return s
 	}
@@ -236,6 +236,11 @@ func (e *vfC19Env) write(path, docID string, body *vfC19Val, st *vfC19Style, par
 		if x := row.Get("rev"); x != nil {
 			res.RevID = x.Str
 		}
+		if path == "bulk-noedits" {
+			// the row reports the document's current (winning) revision, which is not the written one
+			// when the written revision loses against an existing leaf
+			res.RevID = forceRev
+		}
 	case "PUT-noedits":
 		extras = append(extras, "_rev", vfC19Str(forceRev))
 		if parent != "" {
@@ -266,6 +271,35 @@ func (e *vfC19Env) write(path, docID string, body *vfC19Val, st *vfC19Style, par
 		}
 		res.RevID = v.Get("_rev").Str
 		res.Code = 201
+	case "autoimport":
+		// external write picked up by the import feed (no request touches the document meanwhile);
+		// the new revision id is learnt from the changes feed
+		text = ser(body)
+		*ops = append(*ops, fmt.Sprintf("external SetRaw %q %s; (auto-import)", docID, text))
+		if err := e.rt.GetSingleDataStore().SetRaw(e.ctx, docID, 0, nil, []byte(text)); err != nil {
+			res.Code, res.Reason = -1, "SetRaw: "+err.Error()
+			return
+		}
+		deadline := time.Now().Add(vfC19WaitBound)
+		for res.RevID == "" {
+			r := e.do("GET", "/_changes?since="+url.QueryEscape(e.since), "", nil)
+			if v, err := vfC19Decode(r.Body); err == nil && r.Code == 200 && v.Kind == 'o' && v.Get("results") != nil {
+				for _, row := range v.Get("results").Vals {
+					if id := row.Get("id"); id != nil && id.Str == docID {
+						if ch := row.Get("changes"); ch != nil && len(ch.Vals) > 0 && ch.Vals[0].Get("rev") != nil && ch.Vals[0].Get("rev").Str != parent {
+							res.RevID = ch.Vals[0].Get("rev").Str
+						}
+					}
+				}
+			}
+			if res.RevID == "" {
+				if time.Now().After(deadline) {
+					panic(kit.InconclusiveErr{Msg: fmt.Sprintf("auto-import of %q did not show on the changes feed within %v", docID, vfC19WaitBound)})
+				}
+				time.Sleep(time.Millisecond)
+			}
+		}
+		res.Code = 201
 	}
 	if res.Code == 200 {
 		res.Code = 201
@@ -282,6 +316,7 @@ type vfC19Checker struct {
 	reads  int
 	paths  map[string]bool
 	expSet bool
+	revsOK bool // the request asked for the revision history (revs=true)
 }
 
 func (c *vfC19Checker) fail(format string, a ...any) {
@@ -323,6 +358,12 @@ func (c *vfC19Checker) doc(what string, got *vfC19Val, want *vfC19Rev, showExp b
 		}
 	} else if showExp && want.HasExp {
 		c.fail("%s: show_exp=true but no _exp in the body although the client set one", what)
+	}
+	if got.Get("_revisions") != nil && !c.revsOK {
+		c.fail("%s: _revisions in the returned body although no history was requested: %s", what, vfC19Short(got.Get("_revisions")))
+	}
+	if got.Get("_attachments") != nil {
+		c.fail("%s: _attachments in the returned body of a document written without attachments: %s", what, vfC19Short(got.Get("_attachments")))
 	}
 	if want.Deleted {
 		if d := got.Get("_deleted"); d == nil || d.Kind != 't' {
@@ -367,7 +408,9 @@ func (c *vfC19Checker) readAll(current *vfC19Rev, leaves []*vfC19Rev, old []*vfC
 		r := e.do("GET", p+"?revs=true&show_exp=true", "", nil)
 		ok(what, r)
 		v := c.raw(what, r.Body)
+		c.revsOK = true
 		c.doc(what, v, current, true)
+		c.revsOK = false
 		if rv := v.Get("_revisions"); rv == nil || rv.Kind != 'o' || rv.Get("ids") == nil {
 			c.fail("%s: no _revisions in %s", what, vfC19Short(v))
 		}
@@ -447,7 +490,9 @@ func (c *vfC19Checker) readAll(current *vfC19Rev, leaves []*vfC19Rev, old []*vfC
 			if i > 0 {
 				want = leaves[i-1]
 			}
+			c.revsOK = true
 			c.doc(what, c.raw(what, part), want, false)
+			c.revsOK = false
 		}
 	}
 	// _all_docs?include_docs=true for this key
@@ -474,14 +519,16 @@ func vfC19MustSer(v *vfC19Val) string {
 }
 
 // changes reads the changes feed from the position recorded before the case and checks the row
-// of this document. The cache catch-up is awaited with the product's own request_plus option; a
-// row that still has not shown up when the bound expires makes the case inconclusive.
+// of this document. The request is repeated until the row of the expected revision is there (the
+// caching feed is asynchronous; request_plus would additionally wait ~1 s for unused sequences of
+// the allocator's batch); a row that has not shown up when the bound expires makes the case
+// inconclusive.
 func (c *vfC19Checker) changes(current *vfC19Rev) {
 	e := c.e
 	what := "_changes?include_docs=true"
 	deadline := time.Now().Add(vfC19WaitBound)
 	for {
-		q := "/_changes?include_docs=true&request_plus=true&since=" + url.QueryEscape(e.since)
+		q := "/_changes?include_docs=true&since=" + url.QueryEscape(e.since)
 		r := e.do("GET", q, "", nil)
 		if r.Code != 200 {
 			*c.ops = append(*c.ops, "GET "+q)
@@ -575,19 +622,33 @@ func TestVerif_C19_RestPaths(t *testing.T) {
 	ec := vfC19NewEnv(t, "RestPaths", false, nil)
 	defer ec.Close()
 	ec.rt.GetDatabase().EnableAllowConflicts(ec.rt.TB())
+	// third gateway: import feed on
+	ea := vfC19NewEnv(t, "RestPaths", true, nil)
+	defer ea.Close()
 	knownBlank := kit.Known("C19", vfC19SigBlankObject)
 	rapid.Check(t, func(rt *rapid.T) {
 		defer vfC19Inconclusive(rt, rec)
 		var ops []string
-		shape := rapid.SampledFrom([]string{"single", "single", "update", "conflict", "resurrect"}).Draw(rt, "shape")
+		classes0 := ""
+		shape := rapid.SampledFrom([]string{"single", "single", "single", "update", "update", "conflict", "resurrect", "autoimport"}).Draw(rt, "shape")
 		e := e0
 		if shape == "conflict" {
 			e = ec
 			ops = append(ops, "(gateway in legacy allow_conflicts mode)")
 		}
+		autoImport := shape == "autoimport"
+		if autoImport {
+			e = ea
+			ops = append(ops, "(gateway with auto-import)")
+			shape = rapid.SampledFrom([]string{"single", "update"}).Draw(rt, "aishape")
+			classes0 = "auto-import"
+		}
 		docID := e.newDocID(rt)
 		c := &vfC19Checker{e: e, rt: rt, ops: &ops, docID: docID, paths: map[string]bool{}}
 		var classes []string
+		if classes0 != "" {
+			classes = append(classes, classes0)
+		}
 		sigParts := []string{shape}
 		nontrivial := false
 		mk := func(path string, last bool) (*vfC19Val, *vfC19Style) {
@@ -618,7 +679,7 @@ func TestVerif_C19_RestPaths(t *testing.T) {
 			return r
 		}
 		drawExp := func(path string) *vfC19Val {
-			if path == "import" || rapid.IntRange(0, 5).Draw(rt, "exp") != 0 {
+			if path == "import" || path == "autoimport" || rapid.IntRange(0, 5).Draw(rt, "exp") != 0 {
 				return nil
 			}
 			classes = append(classes, "with-_exp")
@@ -626,6 +687,9 @@ func TestVerif_C19_RestPaths(t *testing.T) {
 		}
 		kit.Guard(rt, "C19", "RestPaths", func() string { return strings.Join(ops, "; ") }, func() {
 			w1 := rapid.SampledFrom(vfC19WritePaths).Draw(rt, "w1")
+			if autoImport {
+				w1 = "autoimport"
+			}
 			b1, st1 := mk(w1, shape == "single")
 			exp1 := drawExp(w1)
 			res, text, esc := e.write(w1, docID, b1, st1, "", "1-"+rapid.SampledFrom([]string{"abc", "0a0a", "fed"}).Draw(rt, "d1"), exp1, &ops)
@@ -634,6 +698,9 @@ func TestVerif_C19_RestPaths(t *testing.T) {
 			switch shape {
 			case "update":
 				w2 := rapid.SampledFrom([]string{"PUT", "bulk", "bulk-noedits", "PUT-noedits", "import"}).Draw(rt, "w2")
+				if autoImport && w2 != "PUT" {
+					w2 = "autoimport"
+				}
 				b2, st2 := mk(w2, true)
 				exp2 := drawExp(w2)
 				res, text, esc := e.write(w2, docID, b2, st2, rev1.RevID, "2-"+rapid.SampledFrom([]string{"abc", "0a0a", "fed"}).Draw(rt, "d2"), exp2, &ops)
@@ -642,7 +709,7 @@ func TestVerif_C19_RestPaths(t *testing.T) {
 					// an update without _exp clears the expiry
 					rev2.HasExp = false
 				}
-				if w2 == "import" && exp1 != nil {
+				if (w2 == "import" || w2 == "autoimport") && exp1 != nil {
 					rev2.HasExp = true // import preserves the existing expiry
 				}
 				current, leaves, old = rev2, []*vfC19Rev{rev2}, []*vfC19Rev{rev1}
@@ -710,6 +777,22 @@ func TestVerif_C19_RestPaths(t *testing.T) {
 	if knownBlank {
 		vfC19RegressBlankObject(e0)
 	}
+	vfC19NoteHugeFloat(e0)
+}
+
+// vfC19NoteHugeFloat records the adjacent observation of DESIGN §5a item 15 (outside the listed
+// statements): a literal outside the float64 range is stored and returned faithfully, but a later
+// update of that document is answered with a server error.
+func vfC19NoteHugeFloat(e *vfC19Env) {
+	r := e.do("PUT", "/c19-note-huge", `{"a":1e400}`, nil)
+	v, err := vfC19Decode(r.Body)
+	if r.Code != 201 || err != nil || v.Get("rev") == nil {
+		return
+	}
+	g := e.do("GET", "/c19-note-huge", "", nil)
+	u := e.do("PUT", "/c19-note-huge?rev="+v.Get("rev").Str, `{"a":1}`, nil)
+	kit.Note("C19", "adjacent observation (not part of the property): PUT {\"a\":1e400} -> %d, GET -> %s, then PUT ?rev=… {\"a\":1} -> %d %s",
+		r.Code, strings.Join(strings.Fields(string(g.Body)), " "), u.Code, strings.Join(strings.Fields(vfC19Clip(string(u.Body))), " "))
 }
 
 // vfC19RegressBlankObject executes the minimal reproduction of the listed finding
@@ -731,7 +814,7 @@ func vfC19RegressBlankObject(e *vfC19Env) {
 		bad = rows == nil || len(rows.Vals) != 1 || rows.Vals[0].Get("doc") == nil
 	}
 	if bad {
-		kit.KnownFinding("C19", vfC19SigBlankObject, fmt.Sprintf("external write of `{ }` + import, then GET /_all_docs?include_docs=true&keys=[id] answers %d %s", r.Code, strings.TrimSpace(vfC19Clip(string(r.Body)))))
+		kit.KnownFinding("C19", vfC19SigBlankObject, fmt.Sprintf("external write of `{ }` + import, then GET /_all_docs?include_docs=true&keys=[id] answers %d %s", r.Code, strings.Join(strings.Fields(vfC19Clip(string(r.Body))), " ")))
 	}
 }
 
